@@ -634,6 +634,7 @@ class _JoinedListener(_CompoundListener[_ET]):
         name: str,
         local: _EmptyListener[_ET],
     ):
+        super().__init__()
         self._exec_once = False
         self._exec_w_sync_once = False
         self._exec_once_mutex = None
